@@ -41,7 +41,7 @@ type yieldPlan struct {
 }
 
 var curPlan atomic.Value // *yieldPlan
-var siteHits [8]int64
+var siteHits [16]int64
 
 var replayPlan = &yieldPlan{replay: true}
 
